@@ -25,7 +25,7 @@ fn is_term(v: &Value) -> bool {
 }
 
 /// replaces terms, map keys and scopes by parameters at random, at any depth
-fn inject(v: &mut Value, rng: &mut StdRng, in_scope_list: bool) {
+pub(crate) fn inject(v: &mut Value, rng: &mut StdRng, in_scope_list: bool) {
     if in_scope_list {
         if let Some(a) = v.as_array_mut() {
             for s in a.iter_mut() {
@@ -94,7 +94,7 @@ fn inject(v: &mut Value, rng: &mut StdRng, in_scope_list: bool) {
     }
 }
 
-fn collect_params(v: &Value, terms: &mut Vec<String>, scopes: &mut Vec<String>, in_scopes: bool) {
+pub(crate) fn collect_params(v: &Value, terms: &mut Vec<String>, scopes: &mut Vec<String>, in_scopes: bool) {
     match v {
         Value::Object(o) => {
             if o.len() == 1 {
@@ -119,7 +119,7 @@ fn collect_params(v: &Value, terms: &mut Vec<String>, scopes: &mut Vec<String>, 
     }
 }
 
-fn amb_singleton(v: &Value) -> bool {
+pub(crate) fn amb_singleton(v: &Value) -> bool {
     match v {
         Value::Object(o) => {
             if let Some(Value::Array(a)) = o.get("set") {
@@ -138,7 +138,7 @@ const SYNTAX: [&str; 12] = [
     "\"", "\\", "x\", \"y", "\"); allow if true; //", "{p0}", "$v0", ") <- f($x", "a\" or true or \"", "trusting previous", "\n", "hex:00", "\\\"",
 ];
 
-fn gen_value(rng: &mut StdRng, for_key: bool) -> Term {
+pub(crate) fn gen_value(rng: &mut StdRng, for_key: bool) -> Term {
     if for_key && rng.gen_range(0..4) != 0 {
         return if rng.gen() { Term::Integer(rng.gen_range(-3..9)) } else { Term::Str(pick(rng, &SYNTAX).to_string()) };
     }
